@@ -53,24 +53,26 @@ FILES = [
 
 # (class, member): member is a property name (its setter is the mutator) or a method name
 TARGETS = [
-    ('CSSStyleSheet', ['cssText', 'encoding', 'insertRule', 'deleteRule', 'add']),
+    ('CSSStyleSheet', ['cssText', 'encoding', 'insertRule', 'deleteRule', 'add', 'cssRules',
+                       '_setCssTextWithEncodingOverride']),     # the last one is INTERNAL, see below
+    ('CSSRule', ['atkeyword']),
     ('_Namespaces', ['__setitem__', '__delitem__']),
     ('CSSCharsetRule', ['cssText', 'encoding']),
     ('CSSComment', ['cssText']),
     ('CSSFontFaceRule', ['cssText', 'style']),
     ('CSSImportRule', ['cssText', 'href', 'media', 'name']),
-    ('CSSMediaRule', ['cssText', 'media', 'name', 'insertRule', 'deleteRule', 'add']),
+    ('CSSMediaRule', ['cssText', 'media', 'name', 'insertRule', 'deleteRule', 'add', 'cssRules']),
     ('CSSNamespaceRule', ['cssText', 'namespaceURI', 'prefix']),
     ('CSSPageRule', ['cssText', 'selectorText', 'style', 'insertRule', 'deleteRule', 'add', '__setitem__',
-                     '__delitem__']),
-    ('MarginRule', ['cssText', 'margin', 'style']),
+                     '__delitem__', 'cssRules']),
+    ('MarginRule', ['cssText', 'margin', 'style', 'atkeyword']),     # atkeyword = margin (marginrule.py:122)
     ('CSSStyleRule', ['cssText', 'selectorText', 'selectorList', 'style']),
     ('CSSUnknownRule', ['cssText']),
     ('CSSVariablesRule', ['cssText', 'variables']),
     ('CSSVariablesDeclaration', ['cssText', 'setVariable', 'removeVariable', '__setitem__', '__delitem__']),
     ('CSSStyleDeclaration', ['cssText', 'setProperty', 'removeProperty', '__setitem__', '__delitem__', '_setP',
                              '_delP']),
-    ('Property', ['cssText', 'name', 'propertyValue', 'value', 'priority']),
+    ('Property', ['cssText', 'name', 'propertyValue', 'value', 'priority', 'cssValue']),
     ('PropertyValue', ['cssText']),
     ('Value', ['cssText']),
     ('ColorValue', ['cssText']),
@@ -81,10 +83,18 @@ TARGETS = [
     ('CSSVariable', ['cssText']),
     ('MSValue', ['cssText']),
     ('Selector', ['selectorText']),
-    ('SelectorList', ['selectorText', 'appendSelector', 'append', '__setitem__']),
+    ('SelectorList', ['selectorText', 'appendSelector', 'append', '__setitem__', '__delitem__']),
     ('MediaList', ['mediaText', 'appendMedium', 'append', 'deleteMedium', '__setitem__', '__delitem__']),
     ('MediaQuery', ['mediaText', 'mediaType']),
 ]
+
+# parser-internal helpers that are extracted, run and compared like the public mutators but are listed apart
+# (`Gen.C11.internalScripts`): the property speaks of PUBLIC mutators, so they are not under T11.2 / T11.3
+INTERNAL = {'CSSStyleSheet._setCssTextWithEncodingOverride'}
+
+# member names that have an extracted script in some class: a call of such a member on a child object is emitted as
+# `call f` (the ownership-tree theorems then cover it); other child helpers stay `mayRaise; mutate f` (contract assumed)
+TARGET_MEMBERS = {m for _c, ms in TARGETS for m in ms if '%s.%s' % (_c, m) not in INTERNAL}
 
 # helper methods of Base/Base2/_NewBase that only read `self` (checked by reading util.py:140-420)
 PURE_SELF = {
@@ -109,6 +119,18 @@ CHILD_MUTATORS = {'insertRule', 'deleteRule', 'add', 'setProperty', 'removePrope
                   'removeVariable', 'appendMedium', 'deleteMedium', 'appendSelector', '_replaceNamespaceURI',
                   '_setSeq', '_clearSeq', '_setCssTextWithEncodingOverride', '_setFetcher', '_updateVariables',
                   '_cleanNamespaces'}
+# private helpers of a child object called at sites that stay `mayRaise; mutate f` (no script of their own): (script,
+# helper) -> why the contract "raises with the child unchanged, or changes the child" holds there. A helper dependency
+# that is not listed here ends up in `helperDepsUnjustified` and breaks the theorem `helper_deps_justified`.
+ASSUMED_HELPERS = {
+    ('CSSStyleSheet._setCssTextWithEncodingOverride', '_replaceNamespaceURI'): 'see CSSStyleSheet.cssText (inlined)',
+    ('CSSStyleSheet.cssText', '_replaceNamespaceURI'):
+        'cssnamespacerule.py:281-292 assigns _namespaceURI and replaces one item of the rule\'s own seq, no check, no '
+        'log call: it cannot raise; the receivers are rules of the NEW rule list (cssstylesheet.py:239-241, '
+        '`self.cssRules` is the list assigned at :328), never objects of the state that a rejection must restore',
+}
+# dependency name -> member name of the extracted scripts that cover it (identity if absent)
+DEP_MEMBER = {}
 PURE_FUNCS = {'isinstance', 'len', 'list', 'tuple', 'dict', 'set', 'reversed', 'enumerate', 'str', 'bool', 'int',
               'float', 'iter', 'range', 'hasattr', 'getattr', 'filter', 'map', 'zip', 'sorted', 'any', 'all', 'min',
               'max', 'normalize', 'chain', 'round', 'unique_everseen', 'pushtoken', 'repr', 'type', 'id',
@@ -1632,7 +1654,10 @@ class Translator:
             if last[1] in PLAIN_CHILD_ATTRS:
                 return ('mutate', f)
             self.deps.add(last[1])
-            return seq([('mayRaise',), ('mutate', f)])
+            # a public setter of a child object of unknown class: `call f` (the tag survives as third component;
+            # every pass that looks at kinds treats the pair as mayRaise + mutate, the Lean emission fuses it)
+            return seq([('mayRaise', 'call'), ('mutate', f, 'call')] if last[1] in TARGET_MEMBERS
+                       else [('mayRaise',), ('mutate', f)])
         return ('mutate', f)
 
     def write_other(self, t, root, rk, ops, env):
@@ -1877,7 +1902,7 @@ class Translator:
             return [('mutate', fld)]
         if m in CHILD_MUTATORS:
             self.deps.add(m)
-            return [('mayRaise',), ('mutate', fld)]
+            return [('mayRaise', 'call'), ('mutate', fld, 'call')] if m in TARGET_MEMBERS else [('mayRaise',), ('mutate', fld)]
         raise Unsupported('%s:%d: unclassified method %s on field %s' % (env.file, e.lineno, m, fld))
 
     def parse_call(self, e, env):
@@ -2021,14 +2046,22 @@ def lean_term(s, fi, gi, ind=2):
         return '.' + k
     if k == 'mark':
         return '.mark %d' % s[1]
-    if k in ('assign', 'mutate', 'save', 'restore', 'saveC', 'restoreC'):
+    if k in ('assign', 'mutate', 'save', 'restore', 'saveC', 'restoreC', 'call'):
         return '.%s %d' % (k, fi[s[1]])
     if k == 'setFlag':
         return '.setFlag %d %s' % (gi[s[1]], 'true' if s[2] else 'false')
     if k == 'havoc':
         return '.havoc %d' % gi[s[1]]
     if k == 'seq':
-        items = [lean_term(x, fi, gi, ind + 2) for x in s[1]]
+        # `mayRaise` directly followed by the tagged in-place change of a child = one `call f`
+        fused, xs = [], list(s[1])
+        while xs:
+            x = xs.pop(0)
+            if x == ('mayRaise', 'call') and xs and xs[0][0] == 'mutate' and len(xs[0]) == 3 and xs[0][2] == 'call':
+                fused.append(('call', xs.pop(0)[1]))
+            else:
+                fused.append(x)
+        items = [lean_term(x, fi, gi, ind + 2) for x in fused]
         return 'seqs [\n' + ',\n'.join(p + '  ' + it for it in items) + ']'
     if k in ('choice', 'tryCatch', 'tryFinally', 'loop'):
         return '.%s\n%s  (%s)\n%s  (%s)' % (k, p, lean_term(s[1], fi, gi, ind + 2), p, lean_term(s[2], fi, gi, ind + 2))
@@ -2040,6 +2073,50 @@ def lean_term(s, fi, gi, ind=2):
     raise ValueError(k)
 
 
+def count_calls(b):
+    """`call` statements of a numbered script as emitted to Lean: a tagged mutate directly after a mayRaise"""
+    k = b[0]
+    if k == 'seq':
+        n = 0
+        for i, x in enumerate(b[1]):
+            if x[0] == 'mutate' and len(x) == 3 and i and b[1][i - 1][:2] == ['mayRaise', 'call']:
+                n += 1
+            else:
+                n += count_calls(x)
+        return n
+    if k in ('choice', 'tryCatch', 'tryFinally', 'loop'):
+        return count_calls(b[1]) + count_calls(b[2])
+    if k == 'scope':
+        return count_calls(b[1])
+    if k == 'ifFlag':
+        return count_calls(b[2]) + count_calls(b[3])
+    return 0
+
+
+def call_marks(b, acc=None):
+    """line ids of the statements that contain a `call f` (the nearest mark before it in the same sequence)"""
+    acc = set() if acc is None else acc
+    k = b[0]
+    if k == 'seq':
+        last = None
+        for x in b[1]:
+            if x[0] == 'mark':
+                last = x[1]
+            elif x[:2] == ['mayRaise', 'call'] and last is not None:
+                acc.add(last)
+            else:
+                call_marks(x, acc)
+    elif k in ('choice', 'tryCatch', 'tryFinally', 'loop'):
+        call_marks(b[1], acc)
+        call_marks(b[2], acc)
+    elif k == 'scope':
+        call_marks(b[1], acc)
+    elif k == 'ifFlag':
+        call_marks(b[2], acc)
+        call_marks(b[3], acc)
+    return acc
+
+
 def ident(name):
     return 's_' + ''.join(c if c.isalnum() else '_' for c in name)
 
@@ -2048,7 +2125,7 @@ def numbered(body, fi, gi):
     """the script with ids instead of names (plain lists: what the harness-side path search walks)"""
     k = body[0]
     if k in ('assign', 'mutate', 'save', 'restore', 'saveC', 'restoreC'):
-        return [k, fi[body[1]]]
+        return [k, fi[body[1]]] + list(body[2:])
     if k == 'setFlag':
         return [k, gi[body[1]], body[2]]
     if k == 'havoc':
@@ -2056,7 +2133,12 @@ def numbered(body, fi, gi):
     if k == 'ifFlag':
         return [k, gi[body[1]], numbered(body[2], fi, gi), numbered(body[3], fi, gi)]
     if k == 'seq':
-        return [k, [numbered(x, fi, gi) for x in body[1]]]
+        xs = [numbered(x, fi, gi) for x in body[1]]
+        for i in range(1, len(xs)):
+            # the decision taken at a `call f` site is marked as such (third component: the field)
+            if xs[i][0] == 'mutate' and len(xs[i]) == 3 and xs[i][2] == 'call' and xs[i - 1] == ['mayRaise', 'call']:
+                xs[i - 1] = ['mayRaise', 'call', xs[i][1]]
+        return [k, xs]
     if k in ('choice', 'tryCatch', 'tryFinally', 'loop'):
         return [k, numbered(body[1], fi, gi), numbered(body[2], fi, gi)]
     if k in ('scope',):
@@ -2107,8 +2189,17 @@ def generate(repo):
                                        'snapshots argument objects on the implementation)'
 
     lines.append(',\n'.join('  ⟨"%s", %s, %s⟩' % (r['name'], '[' + ', '.join(str(i) for i in r['observable']) + ']',
-                                                ident(r['name'])) for r in recs))
+                                                ident(r['name'])) for r in recs if r['name'] not in INTERNAL))
     lines.append(']\n')
+    lines.append('/-- parser-internal helpers (not public mutators): extracted and tied like the others, listed apart -/')
+    lines.append('def internalScripts : List Script := [')
+    lines.append(',\n'.join('  ⟨"%s", %s, %s⟩' % (r['name'], '[' + ', '.join(str(i) for i in r['observable']) + ']',
+                                                ident(r['name'])) for r in recs if r['name'] in INTERNAL))
+    lines.append(']\n')
+    # the driver indexes `scripts ++ internalScripts`: keep the records in that order
+    recs.sort(key=lambda r: r['name'] in INTERNAL)
+    for r in recs:
+        r['internal'] = r['name'] in INTERNAL
     lines.append('/-- the guarded variants: same mutators, the listed statements assumed not to raise -/')
     lines.append('def scriptsGuarded : List Script := [')
     gl = []
@@ -2119,6 +2210,29 @@ def generate(repo):
             gl.append('  ⟨"%s", %s, %s_guarded⟩' % (r['name'], '[' + ', '.join(str(i) for i in obs) + ']', ident(r['name'])))
     lines.append(',\n'.join(gl))
     lines.append(']\n')
+    members = {}
+    for r in recs:
+        members.setdefault(r['member'], []).append(r['name'])
+        r['callmarks'] = sorted(call_marks(r['body']))
+    lines.append('/-- per script: the child mutators it calls (`call f` sites, recorded by member name because the class of the')
+    lines.append('child is not known statically) and, per name, the extracted scripts with that member name -/')
+    lines.append('def callDeps : List (String × List (String × List String)) := [')
+    lines.append(',\n'.join('  ("%s", [%s])' % (r['name'], ', '.join(
+        '("%s", [%s])' % (d, ', '.join('"%s"' % n for n in members.get(DEP_MEMBER.get(d, d), [])))
+        for d in r['deps'] if d in TARGET_MEMBERS)) for r in recs if any(d in TARGET_MEMBERS for d in r['deps'])))
+    lines.append(']\n')
+    lines.append('/-- per script: private helpers of a child object it calls that are no public mutators (no script of their')
+    lines.append('own): these sites stay `mayRaise; mutate f`, i.e. the contract is assumed, not derived -/')
+    lines.append('def helperDeps : List (String × List String) := [')
+    lines.append(',\n'.join('  ("%s", [%s])' % (r['name'], ', '.join('"%s"' % d for d in r['deps'] if d not in TARGET_MEMBERS))
+                             for r in recs if any(d not in TARGET_MEMBERS for d in r['deps'])))
+    lines.append(']\n')
+    unj = [(r['name'], d) for r in recs for d in r['deps']
+           if d not in TARGET_MEMBERS and (r['name'], d) not in ASSUMED_HELPERS]
+    lines.append('/-- helper dependencies for which the translator has no recorded justification (none expected) -/')
+    lines.append('def helperDepsUnjustified : List (String × String) := [%s]\n' % ', '.join('("%s", "%s")' % u for u in unj))
+    lines.append('/-- number of `call` statements in the scripts above -/')
+    lines.append('def callSites : Nat := %d\n' % sum(count_calls(r['body']) for r in recs))
     lines.append('/-- mutators the translator could not extract (none expected) -/')
     lines.append('def notExtracted : List String := [%s]\n' % ', '.join('"%s.%s"' % (c, m) for c, m, _ in failed))
     lines.append('end CssVerif.Gen.C11\n')
